@@ -32,6 +32,7 @@ type pK struct {
 
 func (k pK) Hello() string { return k.path + ".Hello()" }
 func (k pK) Twin() pK      { return mkKEnd(k.path + ".Twin()") }
+func (k *pK) Me() *pK      { return k }
 func (k *pK) Shout() string {
 	if k == nil {
 		return "nil.Shout()"
@@ -111,6 +112,13 @@ type pE struct {
 	Title string
 }
 
+// a struct that embeds a POINTER (nil in some elements) to the struct its field ID is promoted from
+type pBase struct{ ID string }
+type pRow struct {
+	*pBase
+	Title string
+}
+
 func mkE(p string) pE {
 	return pE{PMeta: PMeta{PAudit: PAudit{Author: p + ".PMeta.PAudit.Author"}, Stamp: p + ".PMeta.Stamp"}, PBy: PBy{Author: p + ".PBy.Author"}, Title: p + ".Title"}
 }
@@ -135,6 +143,7 @@ func c11Context() *plush.Context {
 	ctx.Set("im", map[int]pK{1: mkK("im[1]")})
 	ctx.Set("em", mkE("em"))
 	ctx.Set("ems", []pE{mkE("ems[0]")})
+	ctx.Set("es", []pRow{{&pBase{"es[0].ID"}, "es[0].Title"}, {nil, "es[1].Title"}})
 	amb := mkK("am[b]")
 	ctx.Set("am", map[string]interface{}{"a": mkK("am[a]"), "b": &amb, "n": nil})
 	ctx.Set("i0", 0)
